@@ -113,8 +113,11 @@ def from_repo(tb):
         if fn.startswith(VERIF):
             # the catalogue functions are total on their documented argument types: an exception
             # inside one means streamz called it with something else
-            if fn.endswith(os.path.join("harness", "elements.py")) and fr.name in CATALOGUE:
+            if fn.endswith(os.path.join("harness", "elements.py")) and (
+                    fr.name in CATALOGUE or fr.name in ("<genexpr>", "<listcomp>", "<lambda>")):
                 continue
+            if fn.endswith(os.path.join("harness", "specs.py")) and fr.name == "<lambda>":
+                continue    # (the wrapper around a catalogue function in a generated map node)
             if fn.endswith(os.path.join("harness", "specs.py")) and fr.name == "g":
                 continue
             return False
